@@ -176,8 +176,10 @@ pub fn eval(expr: Node) -> Result<i64, Box<dyn error::Error>> {
                 }
                 i64::try_from(result.unwrap()).map_err(|_| "Integer overflow".into())
             } else {
+                // of a single argument: its magnitude, as gcd(x, x) and lcm(x, x) give
                 match args.first() {
-                    Some(arg) => Ok(eval((*arg).clone())?),
+                    Some(arg) => i64::try_from(eval((*arg).clone())?.unsigned_abs())
+                        .map_err(|_| "Integer overflow".into()),
                     None => Ok(0),
                 }
             }
@@ -202,8 +204,10 @@ pub fn eval(expr: Node) -> Result<i64, Box<dyn error::Error>> {
                     .and_then(|value| i64::try_from(value).ok())
                     .ok_or_else(|| "Integer overflow".into())
             } else {
+                // of a single argument: its magnitude, as gcd(x, x) and lcm(x, x) give
                 match args.first() {
-                    Some(arg) => Ok(eval((*arg).clone())?),
+                    Some(arg) => i64::try_from(eval((*arg).clone())?.unsigned_abs())
+                        .map_err(|_| "Integer overflow".into()),
                     None => Ok(0),
                 }
             }
